@@ -162,7 +162,10 @@ func Verif_C16_Expansion() {
 	cfg.Deb.Signature.KeyID, cfg.RPM.Signature.KeyID, cfg.APK.Signature.KeyID = &idDeb, &idRpm, &idApk
 	cfg.Deb.Fields = map[string]string{"K": ref}
 	cfg.Depends = []string{ref}
+	cfg.Deb.Predepends, cfg.IPK.Predepends = []string{"basepre"}, []string{"basepre"}
 	cfg.Overrides = map[string]*Overridables{"deb": {Depends: []string{ref}}}
+	cfg.Overrides["deb"].Deb.Predepends = []string{ref}
+	cfg.Overrides["deb"].IPK.Predepends = []string{ref}
 	// the opt-in applies to an entry of any type (a symlink's src is its target)
 	etype := []string{"", files.TypeSymlink, files.TypeDir, files.TypeRPMGhost, files.TypeConfigNoReplace, files.TypeTree, files.TypeRPMDoc}[v.NondetChoice("entry.type", 7)]
 	cfg.Contents = files.Contents{{Source: ref, Destination: ref, Expand: true, Type: etype}, {Source: ref, Destination: ref, Type: etype}}
@@ -181,6 +184,10 @@ func Verif_C16_Expansion() {
 	v.Assert(cfg.Deb.Fields["K"] == want, "custom-fields-expanded")
 	v.Assert(len(cfg.Depends) == 1 && cfg.Depends[0] == verifTrim(want), "list-items-expanded")
 	v.Assert(len(cfg.Overrides["deb"].Depends) == 1 && cfg.Overrides["deb"].Depends[0] == verifTrim(want), "override-list-items-expanded")
+	// nested lists of an override block stay the block's own (expanded or as written), never the base's
+	op, oi := cfg.Overrides["deb"].Deb.Predepends, cfg.Overrides["deb"].IPK.Predepends
+	v.Assert(len(op) == 1 && (op[0] == ref || op[0] == verifTrim(want)) && len(oi) == 1 && (oi[0] == ref || oi[0] == verifTrim(want)), "override-nested-lists-stay-the-blocks-own")
+	v.Assert(len(cfg.Deb.Predepends) == 1 && cfg.Deb.Predepends[0] == "basepre", "base-nested-list-unchanged")
 	v.Assert(cfg.Contents[0].Source == verifTrim(want) && cfg.Contents[0].Destination == verifTrim(want), "content-paths-expanded-on-opt-in")
 	v.Assert(cfg.Contents[1].Source == ref && cfg.Contents[1].Destination == ref, "content-paths-not-expanded-without-opt-in")
 	pick := func(specific string) string {
